@@ -37,12 +37,13 @@ type rsCase struct {
 	PriorOther bool              `json:"earlier_call_on_another_instance,omitempty"`
 	Rejected   []string          `json:"rejected_resources_offered_in_between,omitempty"`
 	Batch      bool              `json:"built_through_the_batch_entry_point,omitempty"`
+	NestedAt   int               `json:"nested_run_on_the_same_engine_at_probe,omitempty"`
 }
 
 func toRSCase(c *val.Case) *rsCase {
 	return &rsCase{Rules: gast.EncodeRules(c.Rules), Text: c.Text, Texts: c.Texts, SoloTexts: c.SoloTexts, Init: c.Init, MaxCycle: c.MaxCycle,
 		ErrOnFail: c.ErrOnFail, ViaGRB: c.ViaGRB, Listeners: c.Listeners, FailAt: c.ProbeFailAt, FailMode: int(c.ProbeMode),
-		PriorInit: c.PriorInit, PriorMax: c.PriorMaxCycle, PriorSame: c.PriorSameDC, PriorOther: c.PriorOtherInstance, Rejected: c.Rejected, Batch: c.Batch}
+		PriorInit: c.PriorInit, PriorMax: c.PriorMaxCycle, PriorSame: c.PriorSameDC, PriorOther: c.PriorOtherInstance, Rejected: c.Rejected, Batch: c.Batch, NestedAt: c.NestedAt}
 }
 
 func fromRSCase(r *rsCase) (*val.Case, error) {
@@ -52,7 +53,7 @@ func fromRSCase(r *rsCase) (*val.Case, error) {
 	}
 	return &val.Case{Rules: rules, Text: r.Text, Texts: r.Texts, SoloTexts: r.SoloTexts, Init: r.Init, MaxCycle: r.MaxCycle, ErrOnFail: r.ErrOnFail,
 		ViaGRB: r.ViaGRB, Listeners: r.Listeners, ProbeFailAt: r.FailAt, ProbeMode: facts.FailMode(r.FailMode),
-		PriorInit: r.PriorInit, PriorMaxCycle: r.PriorMax, PriorSameDC: r.PriorSame, PriorOtherInstance: r.PriorOther, Rejected: r.Rejected, Batch: r.Batch}, nil
+		PriorInit: r.PriorInit, PriorMaxCycle: r.PriorMax, PriorSameDC: r.PriorSame, PriorOtherInstance: r.PriorOther, Rejected: r.Rejected, Batch: r.Batch, NestedAt: r.NestedAt}, nil
 }
 
 // rsGenCfg bundles the knobs of a validated-run property.
@@ -253,6 +254,15 @@ func forgetNamesSelector(rules []*gast.Rule) bool {
 		}
 	}
 	return found
+}
+
+// maybeNested lets a third of the cases with probes run another knowledge base on the same engine value from
+// inside one of the first probe invocations (in a condition or an action).
+func maybeNested(rt *rapid.T, c *val.Case, rs *gen.RuleSet) {
+	if rapid.IntRange(0, 2).Draw(rt, "nested_run") == 0 {
+		c.NestedAt = rapid.IntRange(1, 4).Draw(rt, "nested_at_probe")
+		rs.Feat["nested_run_on_the_same_engine"]++
+	}
 }
 
 func indexes(n int) []int {
